@@ -277,6 +277,25 @@ class Fn:
             self._defs = d
         return self._defs
 
+    def defs_in_block(self, b):
+        """[(local, term)] whole definitions made in block b, in order"""
+        out = []
+        blk = self.blocks[b]
+        for si, st in enumerate(blk['stmts']):
+            p = st['place']
+            if not p['p']:
+                out.append((p['l'], self._def_term(('assign', b, si, st['rv'], p['p']), 0, frozenset([p['l']]))))
+        t = blk['term']
+        if t['k'] == 'call' and not t['dest']['p']:
+            out.append((t['dest']['l'], self._def_term(('call', b, self.call_at(b), []), 0, frozenset([t['dest']['l']]))))
+        return out
+
+    def local_term_in_env(self, l, env):
+        """term of local l, where multi-definition locals take their path-specific value from env"""
+        if l in env:
+            return env[l]
+        return self.local_term(l)
+
     def calls(self):
         if self._calls is None:
             self._calls = {}
@@ -389,7 +408,7 @@ class Fn:
         if d[0] == 'call':
             c = d[2]
             args = [self.term(a, depth + 1, seen) for a in c.args]
-            return ('call', c.name if c.resolved and not c.resolved.startswith('<') else c.callee, args, c.bb)
+            return ('call', c.callee or c.resolved, args, c.bb)
         rv = d[3]
         k = rv['k']
         if k == 'use':
@@ -479,6 +498,26 @@ def walk(t):
             yield from walk(a)
 
 
+def short(name):
+    """last path segment outside generic brackets: heed::Database::<..>::put -> put"""
+    depth = 0
+    last = 0
+    i = 0
+    n = len(name)
+    while i < n:
+        ch = name[i]
+        if ch in '<([{':
+            depth += 1
+        elif ch in '>)]}':
+            depth -= 1
+        elif ch == ':' and depth == 0 and i + 1 < n and name[i + 1] == ':':
+            last = i + 2
+            i += 1
+        i += 1
+    seg = name[last:]
+    return seg or name
+
+
 def show(t, depth=0):
     """compact rendering for messages"""
     if depth > 6:
@@ -493,7 +532,7 @@ def show(t, depth=0):
     if k == 'var':
         return t[2] or ('_%d' % t[1])
     if k == 'call':
-        return '%s(%s)' % (t[1].split('::<')[0].split('::')[-1] if '::' in t[1] else t[1], ', '.join(show(a, depth + 1) for a in t[2]))
+        return '%s(%s)' % (short(t[1]), ', '.join(show(a, depth + 1) for a in t[2]))
     if k == 'try':
         return show(t[1], depth) + '?'
     if k == 'ref':
